@@ -1655,10 +1655,10 @@ func (f *frame) scanCallMods(li *loopInfo, call ssa.CallInstruction) {
 	}
 	c, callee := f.calleeContract(com)
 	if c == nil {
-		if callee != nil && nativeModel(callee.String()) {
+		if callee != nil && (nativeModel(callee.String()) || valueOnlyLibrary(callee)) {
 			return
 		}
-		if callee != nil && callee.Parent() != nil && len(callee.Blocks) > 0 && vc.depth < 3 {
+		if callee != nil && (callee.Parent() != nil || f.smallHelper(callee)) && len(callee.Blocks) > 0 && vc.depth < 3 {
 			// a local closure without contract is inlined at the call: its effects are those of its body
 			vc.depth++
 			sub := vc.newFrame(callee)
